@@ -79,7 +79,7 @@ BigLists ==
     {<<NameOf(ls)>> : ls \in LimLists} \cup
     {<<NameOf(ls), <<Letters(0, 5)>> \o NameOf(ls), Suffix(NameOf(ls), 2), NameOf(ls)>> : ls \in {l \in LimLists : Len(l) > 1 /\ Len(l) < 10}} \cup
     {Nested(k) : k \in {3, 11, 12, 13}} \cup
-    {Append(Nested(k), Nested(k)[k]) : k \in {10, 11, 127}} \cup
+    {Append(Nested(k), Nested(k)[k]) : k \in (IF NLabels = 3 THEN {10, 11, 127} ELSE {10, 11, 40})} \cup
     {<<<<<<0>>, <<255, 92>>, <<97>>>>, <<<<92>>, <<97>>>>, <<<<0>>, <<255, 92>>, <<97>>>>>>}
 
 (* ---- the enumeration: byte strings and name lists grow by one element per step ------- *)
